@@ -8,12 +8,9 @@
       match json_value {
           None => option_value == *default_value,
           Some(JValue::String(s)) => option_value is Some && option_value->0 is String,
-          // a number that is not an i64 makes `unwrap()` panic (refusal).  Verus continues after the
-          // (deliberately ignored) failed precondition of unwrap with an arbitrary i64, so on that
-          // really unreachable path the clause accepts any Integer -- but nothing that is not the
-          // configured number's own Integer value
-          Some(JValue::Number(i)) => option_value is Some && option_value->0 is Integer
-              && (i.as_i64_spec() is Some ==> option_value->0->Integer_0 == i.as_i64_spec()->0),
+          // a number that is not an i64 makes `unwrap()` panic: the plugin refuses to start (E17: no
+          // normal return on that path), so a normal return carries the number's own i64 value
+          Some(JValue::Number(i)) => i.as_i64_spec() is Some && option_value == Some(OValue::Integer(i.as_i64_spec()->0)),
           Some(JValue::Bool(b)) => option_value == Some(OValue::Boolean(*b)),
           // any other JSON type never returns normally (the plugin refuses to start)
           _ => false,
